@@ -12,6 +12,7 @@
   `decode_valid`, `step_valid`, `build_valid` in Props/C05.lean).
 -/
 import EnrVerif.Proofs.CodecTheorems
+import EnrVerif.Proofs.Examples
 
 namespace EnrVerif
 
@@ -58,6 +59,60 @@ theorem C04_roundtrip_json (S : Scheme) (r : Record) (h : Valid S r) :
 theorem C04_decode_roundtrip (S : Scheme) (buf : Bytes) (r : Record) (rest : Bytes)
     (h : decode S buf = .ok (r, rest)) : decode S r.encode = .ok (r, []) :=
   encode_decode S r (decode_valid S buf r rest h)
+
+/-! ### non-vacuity -/
+
+/-- an actual record, byte by byte -/
+example : r0.encode =
+    [209, 132, 1, 2, 3, 13, 1, 130, 105, 100, 130, 118, 52, 116, 131, 1, 2, 3] := by decide
+
+/-- `C04_roundtrip_bytes` applies to it (its hypothesis `Valid tinyS r0` holds) … -/
+example : decode tinyS r0.encode = .ok (r0, []) := C04_roundtrip_bytes tinyS r0 r0_valid
+
+/-- … and agrees with running the decoder on the literal bytes -/
+example : decode tinyS [209, 132, 1, 2, 3, 13, 1, 130, 105, 100, 130, 118, 52, 116, 131, 1, 2, 3] =
+    .ok (r0, []) := by decide +kernel
+
+/-- records handed out by updates round-trip as well (`r1`: own-key update, `r2`: re-keyed) -/
+example : decode tinyS r1.encode = .ok (r1, []) ∧ decode tinyS r2.encode = .ok (r2, []) :=
+  ⟨C04_roundtrip_bytes tinyS r1 r1_valid, C04_roundtrip_bytes tinyS r2 r2_valid⟩
+
+/-- an accepted input with bytes after the record: `C04_reencode`, `C04_consumed_length` and
+    `C04_fields_determined` have a satisfiable hypothesis with `rest ≠ []` -/
+example : decode tinyS (r0Bytes ++ [1, 2, 3]) = .ok (r0, [1, 2, 3]) := by decide +kernel
+
+example : r0.encode ++ [1, 2, 3] = r0Bytes ++ [1, 2, 3] ∧
+    (r0Bytes ++ [1, 2, 3]).length = r0.size + 3 :=
+  have h : decode tinyS (r0Bytes ++ [1, 2, 3]) = .ok (r0, [1, 2, 3]) := by decide +kernel
+  ⟨C04_reencode tinyS _ r0 _ h, C04_consumed_length tinyS _ r0 _ h⟩
+
+example : r0.size = 18 := by decide
+
+/-- an "independent parse" of the same bytes: the record written down by hand -/
+example :
+    ({ seq := 1, nodeId := [1, 2, 3],
+       content := [([105, 100], [130, 118, 52]), ([116], [131, 1, 2, 3])],
+       sig := [1, 2, 3, 13] } : Record) = r0 :=
+  have h : decode tinyS (r0Bytes ++ [1, 2, 3]) = .ok (r0, [1, 2, 3]) := by decide +kernel
+  C04_fields_determined tinyS _ r0 _ h _ r0_valid (by decide)
+
+/-- the text form of `r0`, "enr:0YQBAgMNAYJpZIJ2NHSDAQID", and its round trip -/
+example : r0.toText =
+    [101, 110, 114, 58, 48, 89, 81, 66, 65, 103, 77, 78, 65, 89, 74, 112, 90, 73, 74, 50, 78, 72,
+     83, 68, 65, 81, 73, 68] := by decide
+
+example : parseText tinyS r0.toText = some r0 := C04_roundtrip_text tinyS r0 r0_valid
+
+example : parseText tinyS r0Text = some r0 := by decide +kernel
+
+/-- the JSON form is that text in quotes -/
+example : r0.toJson = [34] ++ r0Text ++ [34] ∧ parseText tinyS r0.toText = some r0 :=
+  have h := C04_roundtrip_json tinyS r0 r0_valid
+  ⟨by rw [h.1, r0_toText], h.2.2⟩
+
+/-- decode ∘ encode ∘ decode = decode on a concrete accepted input with trailing bytes -/
+example : decode tinyS r0.encode = .ok (r0, []) :=
+  C04_decode_roundtrip tinyS (r0Bytes ++ [1, 2, 3]) r0 [1, 2, 3] (by decide +kernel)
 
 #print axioms C04_reencode
 #print axioms C04_consumed_length
